@@ -26,6 +26,7 @@ def run_hist(c):
   slots, conts, obs = [], [], []
   for op in c["ops"]:
     flag = ["ok", 0]
+    vals = []
     try:
       t = op[0]
       if t == "new":
@@ -76,6 +77,11 @@ def run_hist(c):
         slots.append(r); conts.append(None)
       elif t == "set":
         slots[op[1]][op[2]] = H.num(op[3], op[4])
+      elif t == "eval":
+        p, v = slots[op[1]], H.typed(op[2], op[3])
+        vals = [H.qv(p(v)), H.qv(p(v, horner=True)), H.qv(p(v, horner=False))]
+      elif t == "zero":
+        slots[op[1]].zero = H.zero_kw(op[2] if op[2] not in ("default", "none") else "float")["zero"]
       elif t == "hash":
         ps = [slots[i] for i in op[1] if i < len(slots)]   # a variable a refused call never created
         if op[2] == "hash":
@@ -91,7 +97,7 @@ def run_hist(c):
     except Exception as e:
       flag = ["raise", type(e).__name__]
     hashed = [hasattr(p, "_hash") for p in slots]
-    obs.append({"flag": flag, "terms": [H.terms_of(p) for p in slots],
+    obs.append({"flag": flag, "vals": vals, "terms": [H.terms_of(p) for p in slots],
                 "eq": [[bool(p == r) for r in slots] for p in slots],
                 "ne": [[bool(p != r) for r in slots] for p in slots],
                 "heq": [[(not (hashed[i] and hashed[j])) or hash(p) == hash(r) for j, r in enumerate(slots)]
@@ -120,6 +126,8 @@ def op_lit(op):
   if t == "bin": return "(HBin %s %s %s)" % ({"add": "BAdd", "sub": "BSub", "mul": "BMul", "call": "BCall"}[op[1]], L.nat(op[2]), L.nat(op[3]))
   if t == "set": return "(HSet %s %s %s)" % (L.nat(op[1]), H.zl(op[2]), H.q(op[3]))
   if t == "hash": return "(HHash %s)" % L.lst([L.nat(i) for i in op[1]])
+  if t == "eval": return "(HEval %s %s)" % (L.nat(op[1]), H.q(op[2]))
+  if t == "zero": return "(HZero %s)" % L.nat(op[1])
   raise ValueError(t)
 
 
@@ -132,7 +140,8 @@ def lit_hist(c, o):
   steps = []
   for st in o.get("steps", []):
     fl = "(Ok (%d)%%Z)" % st["flag"][1] if st["flag"][0] == "ok" else "(Raise %s)" % L.string(st["flag"][1])
-    steps.append("(HO %s %s %s %s %s)" % (fl, L.lst([H.pairs_lit(t) for t in st["terms"]]), _bm(st["eq"]), _bm(st["ne"]), _bm(st["heq"])))
+    steps.append("(HO %s %s %s %s %s %s)" % (fl, L.lst([H.pairs_lit(t) for t in st["terms"]]), _bm(st["eq"]), _bm(st["ne"]),
+                                            _bm(st["heq"]), L.lst([H.q(x) for x in st.get("vals", [])])))
   return "(HC %s %s)" % (L.lst([op_lit(op) for op in c["ops"]]), L.lst(steps))
 
 
@@ -261,6 +270,48 @@ def gen_hist(tier, rng):
     if rng.random() < 0.4:
       ops += [["set", other, k, cnew, ty]]
     yield {"ops": ops, "tags": ["S3-independence", "op=" + u[0] + (str(u[1]) if len(u) > 1 else ""), order]}
+  # S5 (class (k), per-object caches): ONE instance is evaluated under every scheme, mutated through its public
+  # mutators (item assignment at a NEW power, at an existing power, to zero = removal, the zero setter), evaluated
+  # again ...; a fresh polynomial equal to its final value, built another way, must evaluate equally
+  for i in range(2 * n):
+    exact = rng.random() < 0.6
+    lo = 0 if rng.random() < 0.6 else -3
+    base = _pairs(rng, exact, n=rng.randrange(1, 4), lo=lo, hi=4)
+    ty = _types(rng, exact, [p[1] for p in base])
+    vpool = ([Fraction(2), Fraction(-3, 2), Fraction(5, 7), Fraction(1, 3), Fraction(0), Fraction(-1)] if exact
+             else [Fraction(2), Fraction(-2), Fraction(1, 2), Fraction(-1), Fraction(4), Fraction(0)])
+    def ev(slot):
+      v = rng.choice(vpool)
+      vty = rng.choice(["frac", "q"]) if exact else rng.choice(["frac", "float"] + (["int"] if v.denominator == 1 else []))
+      return ["eval", slot, _fr(v), vty]
+    ops = [_new(rng, base, ty, ("dict", "odict", "list")), ev(0)]
+    cur = [list(p) for p in base]
+    for _ in range(rng.randrange(1, 4)):
+      present = [p[0] for p in cur]
+      absent = [k for k in range(lo, 7) if k not in present]
+      kind = rng.choice(["new", "new", "new", "upd", "del", "nop", "zero"])
+      cval = _fr(rng.choice([7, -2, 3] if not exact else [7, -2, Fraction(1, 2), Fraction(-4, 3)]))
+      if kind == "new" and absent:
+        k = rng.choice(absent); ops.append(["set", 0, k, cval, ty if exact else "int"]); cur = _setsim(cur, k, cval)
+      elif kind == "upd" and present:
+        k = rng.choice(present); ops.append(["set", 0, k, cval, ty if exact else "int"]); cur = _setsim(cur, k, cval)
+      elif kind == "del" and present:
+        k = rng.choice(present); ops.append(["set", 0, k, [0, 1], "q"]); cur = _setsim(cur, k, [0, 1])
+      elif kind == "nop" and absent:
+        ops.append(["set", 0, rng.choice(absent), [0, 1], "q"])
+      else:
+        ops.append(["zero", 0, rng.choice(["int", "float", "frac", "false", "q"])])
+      ops.append(ev(0))
+      if rng.random() < 0.4:
+        ops.append(ev(0))
+    ns = 1
+    if rng.random() < 0.7:        # the same ring element through another history
+      fresh = [list(p) for p in cur]; rng.shuffle(fresh)
+      ops.append(_new(rng, fresh, _types(rng, exact, [p[1] for p in fresh]))); ns += 1
+      ops.append(["eval", ns - 1] + ops[-2][2:] if ops[-2][0] == "eval" else ev(ns - 1))
+    if rng.random() < 0.3:        # frozen by hashing: the refused assignment must not disturb later evaluations
+      ops += [_hash_op(rng, [0]), ["set", 0, 6, _fr(5), "q" if exact else "int"], ev(0), ["zero", 0, "int"], ev(0)]
+    yield {"ops": ops, "tags": ["S5-eval-mutate", "exact" if exact else "mixed", "poly" if lo == 0 else "laurent"]}
   # S4: random histories
   for i in range(n):
     exact = rng.random() < 0.6
@@ -280,6 +331,9 @@ def gen_hist(tier, rng):
       elif r < 0.75:
         c = _fr(rng.choice([0, 1, -2, 3])) if not exact else _fr(rng.choice([0, 1, -2, Fraction(1, 3)]))
         ops.append(["set", rng.randrange(ns), rng.randrange(-2, 4), c, "q" if exact else "int"])
+      elif r < 0.85:
+        v = rng.choice([Fraction(2), Fraction(-1), Fraction(1, 2), Fraction(0)])
+        ops.append(["eval", rng.randrange(ns), _fr(v), "frac"])
       elif r < 0.95:
         ops.append(_hash_op(rng, rng.sample(range(ns), rng.randrange(1, ns + 1))))
       else:
@@ -289,4 +343,6 @@ def gen_hist(tier, rng):
 
 def nontrivial_hist(c, o):
   kinds = [op[0] for op in c["ops"]]
+  if kinds.count("eval") >= 2 and ("set" in kinds or "zero" in kinds):
+    return True
   return "hash" in kinds and (("set" in kinds) or ("mutc" in kinds) or kinds.count("new") >= 2)
